@@ -29,19 +29,9 @@ impl Recorder {
         if via_into != groups {
             self.api_errors.push("IntoIterator for &Params differs from iter()".into());
         }
-        let dbg = format!("{:?}", p);
-        let want = format!(
-            "[{}]",
-            groups
-                .iter()
-                .map(|g| g.iter().map(|v| v.to_string()).collect::<Vec<_>>().join(":"))
-                .collect::<Vec<_>>()
-                .join(";")
-        );
-        if dbg != want {
-            self.api_errors
-                .push(format!("Params Debug is {dbg:?}, iter() gives {want:?}"));
-        }
+        // The Debug text of Params is not part of any property (its layout may change); it only has
+        // to be produced without panicking.
+        let _ = format!("{:?}", p);
         groups
     }
 }
